@@ -525,6 +525,9 @@ def worker_case(c):
 def short(c):
     d = {k: v for k, v in c.items() if k != "meta"}
     d["meta"] = {k: v for k, v in c.get("meta", {}).items() if k not in ("runs",)}
+    if c.get("n", 0) > 5000 and "want" in d["meta"]:
+        # (the 64 KiB framing case: keep the replay small - everything is determined by the page bytes)
+        d["meta"] = dict(d["meta"], want="alternating 0/1 (i % 2)", levels="all 1")
     return d
 
 
@@ -629,7 +632,7 @@ def dispatch_correspondence(ctx, c, r):
     tab = DISPATCH_TAB
     if tab is None or r[0] != "ok":
         return
-    if c["fn"] in ("page_v1_dict", "page_v2_dict") and not c["optional"] and c["meta"]["want"]:
+    if c["fn"] in ("page_v1_dict", "page_v2_dict") and not c["optional"] and _nwant(c):
         obs = D.observed_index(c, r)
         mod = D.model_index(tab, c)
         if obs is not None and mod is not None:
@@ -1368,11 +1371,12 @@ def _pg2_finish(c):
 def _pg2_oracle(c, r, so, guard):
     if r[0] != "ok":
         return [(r[0], "core.read_data_page_v2: %r" % (r[:3],))]
-    want = c["meta"]["want"]
-    if not so or list(so[0][0]) != want:
+    want, agrees = _pg_want(c, so)
+    if not agrees:
         return [("spec", "harness: the page's index runs do not spec-decode to the intended indices")]
     it = iter(want)
-    full = [next(it) if lv else (-1 if c.get("use_cat") else None) for lv in c["meta"]["levels"]]
+    levels = c["meta"]["levels"] if not isinstance(c["meta"]["levels"], str) else [1] * c["n"]
+    full = [next(it) if lv else (-1 if c.get("use_cat") else None) for lv in levels]
     if r[1] != full:
         bad = [(i, a, b) for i, (a, b) in enumerate(zip(r[1], full)) if a != b][:4]
         return [("values", "core.read_data_page_v2 filled the output (dtype %s) differently from the spec decoding of the page at %r "
@@ -1383,17 +1387,16 @@ def _pg2_oracle(c, r, so, guard):
 def _pg_oracle(c, r, so, guard):
     if r[0] != "ok":
         return [(r[0], "core.read_data_page: %r" % (r[:3],))]
-    want = c["meta"]["want"]
+    want, agrees = _pg_want(c, so)
     probs = []
-    dec = so
-    if not dec or list(dec[0][0]) != want:
+    if not agrees:
         return [("spec", "harness: the page's index runs do not spec-decode to the intended indices")]
     if r[1] != want:
         bad = [(i, a, b) for i, (a, b) in enumerate(zip(r[1], want)) if a != b][:4]
         probs.append(("values", "core.read_data_page returned indices (dtype %s) that differ from the spec decoding of the page at %r "
                       "(position, got, want)%s" % (r[3], bad, "" if len(r[1]) == len(want) else "; %d values for %d" % (len(r[1]), len(want)))))
     lv = c["meta"]["levels"]
-    if c["optional"] and 0 in lv and r[2] != lv:
+    if c["optional"] and not isinstance(lv, str) and 0 in lv and r[2] != lv:
         probs.append(("values", "definition levels %r..., the page holds %r..." % ((r[2] or [])[:12], lv[:12])))
     return probs
 
@@ -1403,8 +1406,23 @@ def _pg_cls(c):
             "shape": c["meta"]["shape"]}
 
 
+def _nwant(c):
+    w = c["meta"]["want"]
+    return c.get("nval", c["n"]) if isinstance(w, str) else len(w)
+
+
 def _pg_spec(c):
-    return ("hyb_dec_len" if c.get("rle_bool") else "hyb_dec", 0, c["w"], len(c["meta"]["want"]), _inp(c))
+    if isinstance(c["meta"]["want"], str):
+        return ("uleb_enc", 0)          # (the 64 KiB framing case: the expectation is known by construction, see _pg_want)
+    return ("hyb_dec_len" if c.get("rle_bool") else "hyb_dec", 0, c["w"], _nwant(c), _inp(c))
+
+
+def _pg_want(c, so):
+    """(intended values, spec decoding agrees with them)"""
+    want = c["meta"]["want"]
+    if isinstance(want, str):
+        return [i % 2 for i in range(c["n"])], True
+    return want, bool(so) and list(so[0][0]) == want
 
 
 FNS["page_v1_dict"] = dict(model=lambda c: ("uleb_enc", 0), tagged=False, views=_info_views("none"),
@@ -1511,6 +1529,14 @@ def gen_callers_dispatch(rng, quick):
                     meta = {"want": want, "levels": levels, "shape": "rle-bool:" + "+".join(shape)}
                     cases.append(dict(base, fn="page_v1_dict", meta=dict(meta)))
                     cases.append(dict(base, fn="page_v2_dict", nval=nval, use_cat=False, meta=dict(meta)))
+    # framing boundary of the 4-byte length: a body of more than 65535 bytes (32800 one-value RLE runs), so that every byte
+    # of the prefix matters
+    big = [["rle", 1, i % 2] for i in range(32800)]
+    base = {"w": 1, "n": 32800, "optional": False, "stream": "main", "enc": ["hyb_enc_len", 1, big], "trail": False,
+            "selfmade": False, "rle_bool": True}
+    meta = {"want": "alternating 0/1 (i % 2)", "levels": "all 1", "shape": "rle-bool:64k"}
+    cases.append(dict(base, fn="page_v1_dict", meta=dict(meta)))
+    cases.append(dict(base, fn="page_v2_dict", nval=32800, use_cat=False, meta=dict(meta)))
     return cases
 
 
